@@ -90,6 +90,25 @@ def shard(ctx, arg):
                 attempt(ctx, dex, mon, bytes(b), "single-byte-change-%s" % region, "a single-byte change after the checksum field is not rejected", {"file": fi, "offset": off, "value": v, "dex": data.hex()})
             ctx.sig(fi, off)
         ctx.count("offsets_covered", max(0, min(hi, len(data)) - max(lo, 12)))
+        # the same sweep on the tolerated spellings of the magic (the magic is not covered by the checksum): 'dey' (ODEX) and other version
+        # digits are accepted by design - the checksum must protect those files just the same
+        for label, magic in (("dey", b"dey\n036\0"), ("version-digits", b"dex\n099\0"), ("dey-version-digits", b"dey\n013\0")):
+            var = magic + data[8:]
+            mon.reset()
+            try:
+                dex.DEX(var)
+            except Exception:
+                ctx.count("tolerated_magic_variant_not_accepted_" + label)
+                continue
+            ctx.count("tolerated_magic_variants_swept")
+            for off in range(max(lo, 12), min(hi, len(var))):
+                orig = var[off]
+                for v in ({orig ^ 0x01, orig ^ 0x80, (orig + 1 + rng.randrange(254)) & 0xFF} - {orig}) if ctx.quick else (set(rng.sample(range(256), 24)) | {orig ^ 1, orig ^ 0x80}) - {orig}:
+                    b = bytearray(var)
+                    b[off] = v
+                    attempt(ctx, dex, mon, bytes(b), "single-byte-change-with-%s-magic" % label, "a single-byte change after the checksum field is not rejected (file with a tolerated magic spelling)",
+                            {"file": fi, "offset": off, "value": v, "magic": magic.hex(), "dex": data.hex()})
+                ctx.sig(fi, label, off)
     finally:
         mon.close()
 
@@ -148,7 +167,7 @@ def run(ctx):
         return
     ctx.rule = ("5 generated DEX files of 200-760 bytes: every offset >= 12 x (3 other byte values in quick / all 255 in thorough); with the checksum re-fixed: wrong magic bytes "
                 "0-3 and 7, wrong endian tags (incl. the byte-swapped constant), wrong header sizes; wrong checksum alone; non-DEX buffers. Monitor: MapList.__init__ and "
-                "MapItem.parse call counters must be 0 whenever DEX() raises. distinct non-trivial = distinct (file, offset) / (field, value class)")
+                "the single-byte sweep repeated on the same files with the tolerated magic spellings 'dey\\n036', 'dex\\n099', 'dey\\n013'. MapItem.parse call counters must be 0 whenever DEX() raises. distinct non-trivial = distinct (file, offset) / (field, value class)")
     ctx.assumptions = ["the three version digits of the magic and magic[2]=='y' (ODEX) are tolerated by design and not generated as 'wrong'"]
     args = []
     for fi, d in enumerate(files):
